@@ -12,11 +12,14 @@ They follow from the invariant `Inv` (Proofs/Async.lean, `Inv.run`).
 
 *settled* = every started fetch has completed (or was dropped) and no task is woken.
 
-The model is the code AFTER three repairs (hooks/fix-c10-1.patch, fix-c10-2.patch, fix-c10-3.patch); with
-the first two `C10_settles_on_latest` holds at full strength, with the third
-`C10_suspense_forgets_dropped_readers`.  The code before each repair is kept as `runOld1` /
-`runOld2` / `runOld3` (Model/Async.lean, validated against the unrepaired code by the same correspondence harness)
-with the regression witnesses at the end of this file:
+The model is the code as it is: AFTER two repairs (hooks/fix-c10-1.patch, fix-c10-2.patch, both applied); with
+them `C10_settles_on_latest` holds at full strength.  The code before each repair is kept as `runOld1` /
+`runOld2` (Model/Async.lean, validated against the unrepaired code by the same correspondence harness)
+with the regression witnesses at the end of this file.  A third repair (hooks/fix-c10-3.patch) is PROPOSED and
+not applied: F-C10-3 is a known finding (class `suspense-stale`, `staleSuspense`); `run` = `runF false` has it,
+the statement that fails is `C10_suspense_forgets_dropped_readers_full` (`…_full_false`), what holds of the code
+as it is is `C10_suspense_forgets_dropped_readers_partial`, and what the repair achieves is stated about
+`runF true` (`C10_suspense_forgets_dropped_readers`, `C10_suspense_reload_after_drop_unnoticed`):
 
 * F-C10-1 (`C10_dirty_stolen_witness`): a dependent that had the derived among its sources and was
   check-notified through another source called `update_if_necessary` on the derived during its own
@@ -25,9 +28,9 @@ with the regression witnesses at the end of this file:
 * F-C10-2 (`C10_stale_initial_witness`): a derived whose fetcher reads a MEMO reused the future created
   in its constructor although the memo had changed before the task's first poll (`already_dirty` only
   sees signals).
-* F-C10-3 = F-C04-5 (`C10_stale_registration_witness`): a `SuspenseContext` registered by a read or an
-  `.await` under a boundary, and the task ids taken for it, outlived the reader (its owner cleaned up, its
-  future dropped): the boundary fell back during the next reload of a value nothing below it read any more.
+* F-C10-3 = F-C04-5 (`C10_stale_registration_witness`, KNOWN, not repaired): a `SuspenseContext` registered by a
+  read or an `.await` under a boundary, and the task ids taken for it, outlive the reader (its owner cleaned up,
+  its future dropped): the boundary falls back during the next reload of a value nothing below it reads any more.
 -/
 namespace Leptos.Async
 
@@ -785,7 +788,7 @@ theorem pollD_liveReaders (s : State) : liveReaders (pollD s).aws = liveReaders 
 
 /-- only a new reader under the boundary (`bread`, `attachS`) ends "no reader", and only a synchronous read
 spawns a task holding a handle of the boundary -/
-theorem step_noReader (s : State) (e : Event) (hb : e ≠ .bread) (ha : e ≠ .attachS)
+theorem step_noReader (s : State) (e : Event) (hb : e ≠ .bread) (ha : e ≠ .attachS) (hd : e ≠ .bdrop)
     (h : s.noReader = true) :
     (step s e).noReader = true ∧ liveReaders (step s e).aws ≤ liveReaders s.aws := by
   cases e with
@@ -827,71 +830,146 @@ theorem step_noReader (s : State) (e : Event) (hb : e ≠ .bread) (ha : e ≠ .a
   | get => exact ⟨h, Nat.le_refl _⟩
   | bread => exact absurd rfl hb
   | attachS => exact absurd rfl ha
-  | bdrop => exact ⟨rfl, Nat.le_of_eq (nLive_drop s.aws)⟩
+  | bdrop => exact absurd rfl hd
 
-theorem foldl_noReader (s : State) (es : List Event) (hes : ∀ e ∈ es, e ≠ .bread ∧ e ≠ .attachS)
+/-- ... whether the proposed repair 3 is applied or not -/
+theorem stepF_noReader (f : Bool) (s : State) (e : Event) (hb : e ≠ .bread) (ha : e ≠ .attachS)
     (h : s.noReader = true) :
-    (es.foldl step s).noReader = true ∧ liveReaders (es.foldl step s).aws ≤ liveReaders s.aws := by
+    (stepF f s e).noReader = true ∧ liveReaders (stepF f s e).aws ≤ liveReaders s.aws := by
+  by_cases hd : e = .bdrop
+  · subst hd
+    cases f
+    · exact ⟨rfl, Nat.le_of_eq (nLive_drop s.aws)⟩
+    · exact ⟨rfl, Nat.le_of_eq (nLive_drop s.aws)⟩
+  · have : stepF f s e = step s e := by cases e <;> first | rfl | exact absurd rfl hd
+    rw [this]
+    exact step_noReader s e hb ha hd h
+
+theorem foldl_noReader (f : Bool) (s : State) (es : List Event) (hes : ∀ e ∈ es, e ≠ .bread ∧ e ≠ .attachS)
+    (h : s.noReader = true) :
+    (es.foldl (stepF f) s).noReader = true ∧ liveReaders (es.foldl (stepF f) s).aws ≤ liveReaders s.aws := by
   induction es generalizing s with
   | nil => exact ⟨h, Nat.le_refl _⟩
   | cons e es ih =>
     have he := hes e (by simp)
-    obtain ⟨h1, h2⟩ := step_noReader s e he.1 he.2 h
+    obtain ⟨h1, h2⟩ := stepF_noReader f s e he.1 he.2 h
     obtain ⟨h3, h4⟩ := ih _ (fun x hx => hes x (by simp [hx])) h1
     exact ⟨h3, Nat.le_trans h4 h2⟩
 
-/-- F-C10-3 (= F-C04-5) repaired.  A boundary takes no part in a reload on behalf of readers that are gone:
-once every reader under the boundary has been disposed (`bdrop`: a `<Show>` closed, a row removed, a tab
-switched — the readers' owners are cleaned up, their awaiting futures dropped), then — whatever happened
+/-- `SInv true` (nothing registered, nothing held while there is no reader) survives any continuation of the
+code AS IT IS that brings no new reader -/
+theorem foldl_quiet (s : State) (es : List Event) (hes : ∀ e ∈ es, e ≠ .bread ∧ e ≠ .attachS)
+    (hs : SInv true s) (h : s.noReader = true) : SInv true (es.foldl step s) := by
+  induction es generalizing s with
+  | nil => exact hs
+  | cons e es ih =>
+    have he := hes e (by simp)
+    have h1 := (stepF_noReader false s e he.1 he.2 h).1
+    rw [stepF_false] at h1
+    exact ih _ (fun x hx => hes x (by simp [hx])) (hs.step_quiet h e) h1
+
+/-- WHAT THE PROPOSED REPAIR hooks/fix-c10-3.patch ACHIEVES (`runF true`; not true of the code as it is, see
+`C10_suspense_forgets_dropped_readers_full_false`).  A boundary takes no part in a reload on behalf of readers
+that are gone: once every reader under the boundary has been disposed (`bdrop`: a `<Show>` closed, a row removed,
+a tab switched — the readers' owners are cleaned up, their awaiting futures dropped), then — whatever happened
 before, and whatever happens afterwards short of a NEW reader reading or awaiting the value under the
 boundary: writes, reloads, completions, polls in any order — nothing is registered for the next run, the loop
 holds no task id of the boundary, and the boundary's task list consists of nothing but the handles of
 synchronous reads made during a load that was in flight when the readers went (`liveReaders`: each is
 dropped when that load's `ready()` resolves; the server rendering of `<Suspense/>` depends on them outliving
-the owner they were made in) and never grows.  Before the repair a later reload found the registration of the
-reader that was gone and made the boundary fall back (`C10_stale_registration_witness`). -/
+the owner they were made in) and never grows. -/
 theorem C10_suspense_forgets_dropped_readers (c : Cfg) (es es' : List Event)
     (hes : ∀ e ∈ es', e ≠ .bread ∧ e ≠ .attachS) :
-    (run c (es ++ .bdrop :: es')).susp = 0 ∧ (run c (es ++ .bdrop :: es')).idsHeld = 0 ∧
-    (run c (es ++ .bdrop :: es')).pending = liveReaders (run c (es ++ .bdrop :: es')).aws ∧
-    (run c (es ++ .bdrop :: es')).pending ≤ (run c (es ++ [.bdrop])).pending := by
-  have h0 : (run c (es ++ [.bdrop])).noReader = true := by
-    unfold run
+    (runF true c (es ++ .bdrop :: es')).susp = 0 ∧ (runF true c (es ++ .bdrop :: es')).idsHeld = 0 ∧
+    (runF true c (es ++ .bdrop :: es')).pending = liveReaders (runF true c (es ++ .bdrop :: es')).aws ∧
+    (runF true c (es ++ .bdrop :: es')).pending ≤ (runF true c (es ++ [.bdrop])).pending := by
+  have h0 : (runF true c (es ++ [.bdrop])).noReader = true := by
+    unfold runF
     rw [List.foldl_append]
     rfl
-  have hrun : run c (es ++ .bdrop :: es') = es'.foldl step (run c (es ++ [.bdrop])) := by
-    unfold run
+  have hrun : runF true c (es ++ .bdrop :: es') = es'.foldl (stepF true) (runF true c (es ++ [.bdrop])) := by
+    unfold runF
     rw [List.foldl_append, List.foldl_append]
     rfl
-  obtain ⟨hn, hle⟩ := foldl_noReader _ es' hes h0
+  obtain ⟨hn, hle⟩ := foldl_noReader true _ es' hes h0
   rw [← hrun] at hn hle
-  have hs := SInv.run c (es ++ .bdrop :: es')
-  have hs0 := SInv.run c (es ++ [.bdrop])
-  obtain ⟨h1, h2, _⟩ := hs.p4 hn
-  obtain ⟨_, h2', _⟩ := hs0.p4 h0
+  have hs : SInv true (runF true c (es ++ .bdrop :: es')) := SInv.runF c _
+  have hs0 : SInv true (runF true c (es ++ [.bdrop])) := SInv.runF c _
+  obtain ⟨h1, h2⟩ := hs.p4 rfl hn
+  obtain ⟨_, h2'⟩ := hs0.p4 rfl h0
   have hp := hs.p1
   have hp0 := hs0.p1
   unfold nLive at hp hp0
   exact ⟨h1, h2, by omega, by omega⟩
 
-/-- ... in particular a reload that starts after the readers are gone goes unnoticed by the boundary: if its
-task list was empty when they went (no synchronous read was waiting for a load in flight), it stays empty -/
+/-- ... in particular, with the repair, a reload that starts after the readers are gone goes unnoticed by the
+boundary: if its task list was empty when they went (no synchronous read was waiting for a load in flight), it
+stays empty -/
 theorem C10_suspense_reload_after_drop_unnoticed (c : Cfg) (es es' : List Event)
-    (hes : ∀ e ∈ es', e ≠ .bread ∧ e ≠ .attachS) (h0 : (run c (es ++ [.bdrop])).pending = 0) :
-    (run c (es ++ .bdrop :: es')).pending = 0 := by
+    (hes : ∀ e ∈ es', e ≠ .bread ∧ e ≠ .attachS) (h0 : (runF true c (es ++ [.bdrop])).pending = 0) :
+    (runF true c (es ++ .bdrop :: es')).pending = 0 := by
   have := (C10_suspense_forgets_dropped_readers c es es' hes).2.2.2
   omega
 
-/-- ... and a boundary nothing has ever read under waits for nothing -/
+/-- THE SAME STATEMENT ABOUT THE CODE AS IT IS (`run`): false — known finding F-C10-3 = F-C04-5, class
+`suspense-stale` -/
+def C10_suspense_forgets_dropped_readers_full : Prop :=
+  ∀ (c : Cfg) (es es' : List Event), (∀ e ∈ es', e ≠ .bread ∧ e ≠ .attachS) →
+    (run c (es ++ [.bdrop])).pending = 0 → (run c (es ++ .bdrop :: es')).pending = 0
+
+/-- WHAT HOLDS OF THE CODE AS IT IS.  The damage is limited to the registrations the readers left behind: from any
+point at which no reader exists under the boundary, nothing is registered any more (`susp = 0`: the next run
+of the loop has used the registrations up, or there never were any) and the loop holds no task id
+(`idsHeld = 0`: that run has finished), the boundary behaves as with the repair — whatever happens afterwards
+short of a new reader (including further `bdrop`s), nothing is registered, no id is held, the task list is
+nothing but the unresolved handles of earlier synchronous reads and never grows. -/
+theorem C10_suspense_forgets_dropped_readers_partial (c : Cfg) (es es' : List Event)
+    (hes : ∀ e ∈ es', e ≠ .bread ∧ e ≠ .attachS)
+    (hn : (run c es).noReader = true) (h1 : (run c es).susp = 0) (h2 : (run c es).idsHeld = 0) :
+    (run c (es ++ es')).susp = 0 ∧ (run c (es ++ es')).idsHeld = 0 ∧
+    (run c (es ++ es')).pending = liveReaders (run c (es ++ es')).aws ∧
+    (run c (es ++ es')).pending ≤ (run c es).pending := by
+  have hrun : run c (es ++ es') = es'.foldl step (run c es) := by
+    unfold run
+    rw [List.foldl_append]
+  have hq : SInv true (run c es) := (SInv.run c es).quiet (fun _ => ⟨h1, h2⟩)
+  have hs := foldl_quiet _ es' hes hq hn
+  obtain ⟨hn', hle⟩ := foldl_noReader false _ es' hes hn
+  have hff : es'.foldl (stepF false) (run c es) = es'.foldl step (run c es) := by
+    congr 1
+    funext s e
+    exact stepF_false s e
+  rw [hff, ← hrun] at hn' hle
+  rw [← hrun] at hs
+  obtain ⟨a1, a2⟩ := hs.p4 rfl hn'
+  have hp := hs.p1
+  have hp0 := hq.p1
+  unfold nLive at hp hp0
+  exact ⟨a1, a2, by omega, by omega⟩
+
+/-- ... and the registrations ARE used up by the next run: when the loop starts a fetch it takes them all
+(`susp = 0` afterwards), and it gives the ids back when that fetch has returned; so with no reader left the
+hypotheses of `…_partial` hold whenever the derived's task is back at `rx.next()` after a run -/
+theorem C10_suspense_stale_ids_released_with_the_run (c : Cfg) (es : List Event)
+    (hpc : (run c es).pc ≠ .fetching) : (run c es).idsHeld = 0 :=
+  (SInv.run c es).p2 hpc
+
+/-- a boundary nothing has ever read under waits for nothing (the code as it is, and with the repair) -/
 theorem C10_suspense_idle_without_readers (c : Cfg) (es : List Event)
     (hes : ∀ e ∈ es, e ≠ .bread ∧ e ≠ .attachS) : (run c es).pending = 0 := by
-  obtain ⟨hn, hle⟩ := foldl_noReader (init c) es hes (by simp [init])
-  have hs := SInv.run c es
-  obtain ⟨_, h2, _⟩ := hs.p4 hn
+  have hq : SInv true (init c) := (SInv.init c (f := true))
+  have hs : SInv true (es.foldl step (init c)) := foldl_quiet _ es hes hq (by simp [init])
+  obtain ⟨hn, hle⟩ := foldl_noReader false (init c) es hes (by simp [init])
+  have hff : es.foldl (stepF false) (init c) = es.foldl step (init c) := by
+    congr 1
+    funext s e
+    exact stepF_false s e
+  rw [hff] at hn hle
+  obtain ⟨_, h2⟩ := hs.p4 rfl hn
   have hp := hs.p1
   have h0 : liveReaders (init c).aws = 0 := by simp [init, liveReaders]
   unfold nLive at hp
-  unfold run at hp h2 ⊢
+  unfold run
   omega
 
 /-! ## the version test -/
@@ -970,38 +1048,44 @@ def c10DropEvents : List Event := [.poll 0, .complete 0, .poll 0, .bread, .poll 
 
 def c10DropTail : List Event := [.set 0 1, .poll 0]
 
-/-- F-C10-3 = F-C04-5 (repaired): the reload used to take the registration the disposed reader had left and
-held a task id of the boundary until it finished — the boundary fell back although nothing below it read the
-value any more; an awaiter (`attachS`) left the same registration; a reader disposed DURING a reload kept the
-id until the reload finished.  Now all three end with their reader. -/
+/-- F-C10-3 = F-C04-5 (KNOWN; `run` = the code as it is, `runF true` = with the proposed repair): the reload takes
+the registration the disposed reader has left and holds a task id of the boundary until it finishes — the boundary
+falls back although nothing below it reads the value any more (`staleSuspense`); an awaiter (`attachS`) leaves the
+same registration; a reader disposed DURING a reload keeps the id until the reload finishes.  With the repair all
+three end with their reader. -/
 theorem C10_stale_registration_witness :
-    (runOld3 {} (c10DropEvents ++ [.bdrop])).pending = 0 ∧
-    (runOld3 {} (c10DropEvents ++ .bdrop :: c10DropTail)).pc = .fetching ∧
-    (runOld3 {} (c10DropEvents ++ .bdrop :: c10DropTail)).pending = 1 ∧
+    (run {} (c10DropEvents ++ [.bdrop])).pending = 0 ∧
     (run {} (c10DropEvents ++ .bdrop :: c10DropTail)).pc = .fetching ∧
-    (run {} (c10DropEvents ++ .bdrop :: c10DropTail)).pending = 0 ∧
+    (run {} (c10DropEvents ++ .bdrop :: c10DropTail)).pending = 1 ∧
+    staleSuspense (run {} (c10DropEvents ++ .bdrop :: c10DropTail)) = true ∧
+    oracle (run {} (c10DropEvents ++ .bdrop :: c10DropTail)) = some "suspense-stale" ∧
+    (runF true {} (c10DropEvents ++ .bdrop :: c10DropTail)).pc = .fetching ∧
+    (runF true {} (c10DropEvents ++ .bdrop :: c10DropTail)).pending = 0 ∧
     -- an awaiter instead of a synchronous read
-    (runOld3 {} ([.poll 0, .complete 0, .poll 0, .attachS, .poll 0] ++ .bdrop :: c10DropTail)).pending = 1 ∧
-    (run {} ([.poll 0, .complete 0, .poll 0, .attachS, .poll 0] ++ .bdrop :: c10DropTail)).pending = 0 ∧
+    (run {} ([.poll 0, .complete 0, .poll 0, .attachS, .poll 0] ++ .bdrop :: c10DropTail)).pending = 1 ∧
+    (runF true {} ([.poll 0, .complete 0, .poll 0, .attachS, .poll 0] ++ .bdrop :: c10DropTail)).pending = 0 ∧
     -- disposed while the reload holds the id
-    (runOld3 {} (c10DropEvents ++ [.set 0 1, .poll 0] ++ .bdrop :: [])).pending = 1 ∧
-    (run {} (c10DropEvents ++ [.set 0 1, .poll 0] ++ .bdrop :: [])).pending = 0 ∧
-    -- control: the reader is still there — the boundary waits for the reload, before and after the repair
-    (runOld3 {} (c10DropEvents ++ c10DropTail)).pending = 1 ∧
-    (run {} (c10DropEvents ++ c10DropTail)).pending = 1 := by decide
+    (run {} (c10DropEvents ++ [.set 0 1, .poll 0] ++ .bdrop :: [])).pending = 1 ∧
+    (runF true {} (c10DropEvents ++ [.set 0 1, .poll 0] ++ .bdrop :: [])).pending = 0 ∧
+    -- the stale id goes when that reload has finished, and the next reload is not joined any more (`…_partial`)
+    (run {} (c10DropEvents ++ .bdrop :: c10DropTail ++ [.complete 1, .poll 0])).pending = 0 ∧
+    (run {} (c10DropEvents ++ .bdrop :: c10DropTail ++ [.complete 1, .poll 0, .set 0 2, .poll 0])).pc = .fetching ∧
+    (run {} (c10DropEvents ++ .bdrop :: c10DropTail ++ [.complete 1, .poll 0, .set 0 2, .poll 0])).pending = 0 ∧
+    -- control: the reader is still there — the boundary waits for the reload, with and without the repair
+    (run {} (c10DropEvents ++ c10DropTail)).pending = 1 ∧
+    (runF true {} (c10DropEvents ++ c10DropTail)).pending = 1 := by decide
 
-/-- `C10_suspense_reload_after_drop_unnoticed` was false of the code before repair 3 -/
-theorem C10_suspense_forgets_dropped_readers_old3_false :
-    ¬ ∀ (c : Cfg) (es es' : List Event), (∀ e ∈ es', e ≠ .bread ∧ e ≠ .attachS) →
-        (runOld3 c (es ++ [.bdrop])).pending = 0 → (runOld3 c (es ++ .bdrop :: es')).pending = 0 := by
+/-- the full statement is false of the code as it is -/
+theorem C10_suspense_forgets_dropped_readers_full_false : ¬ C10_suspense_forgets_dropped_readers_full := by
   intro h
   have := h {} c10DropEvents c10DropTail (by decide) C10_stale_registration_witness.1
   rw [C10_stale_registration_witness.2.2.1] at this
   exact absurd this (by decide)
 
-/-- with all three repairs switched on the parameterised chain IS the model -/
-theorem runV_repaired (c : Cfg) (es : List Event) : runV true true true c es = run c es := by
-  have hstep : ∀ (s : State) (e : Event), stepV true true true s e = step s e := by
+/-- with repairs 1 and 2 switched on the parameterised chain IS the model: the code as it is (`f = false`,
+`runF false = run`: `runF_false`) or with the proposed repair 3 (`f = true`) -/
+theorem runV_repaired (f : Bool) (c : Cfg) (es : List Event) : runV true true f c es = runF f c es := by
+  have hstep : ∀ (s : State) (e : Event), stepV true true f s e = stepF f s e := by
     intro s e
     cases e <;> try rfl
     rename_i j
@@ -1024,9 +1108,9 @@ theorem runV_repaired (c : Cfg) (es : List Event) : runV true true true c es = r
       induction n with
       | zero => intro s; rfl
       | succ n ih => intro s; simp [eLoopV, eLoop, he, ih]
-    simp only [stepV, step, pollNthV, pollNth, pollTask, pollE, pollDV, pollD, hdl, hel]
+    simp only [stepV, stepF, step, pollNthV, pollNth, pollTask, pollE, pollDV, pollD, hdl, hel]
     split <;> simp_all
-  unfold runV run
+  unfold runV runF
   generalize init c = s
   induction es generalizing s with
   | nil => rfl
